@@ -75,9 +75,9 @@ type FrameInfo struct {
 type Fault struct {
 	Kind    string
 	Dir     Dir
-	Ordinal int                    // fire on the k-th data frame in Dir counted since Arm (1-based); 0 = use Match
+	Ordinal int                     // fire on the k-th data frame in Dir counted since Arm (1-based); 0 = use Match
 	Match   func(fi FrameInfo) bool // alternative trigger (evaluated on every frame in Dir)
-	Pos     int                    // 0 before first byte, 1 inside header, 2 mid-payload, 3 before last byte, 4 after last byte
+	Pos     int                     // 0 before first byte, 1 inside header, 2 mid-payload, 3 before last byte, 4 after last byte
 	OnFire  func()
 	fired   int32
 	seen    int32
@@ -100,21 +100,21 @@ type Proxy struct {
 	ln     net.Listener
 	target string
 
-	mu        sync.Mutex
-	conns     map[int]*pconn
-	accepts   int
-	refuse    bool
-	failNext  int
-	faults    []*Fault
-	frames    []FrameInfo
-	protoErrs []string
-	dataN     [2]int
-	hold      func(fi FrameInfo) <-chan struct{}
-	observe   func(fi FrameInfo, payload []byte)
-	throttle  [2]int // bytes per second, 0 = off
-	rawCut    *RawFault
-	rawBytes  [2]int64
-	closed    bool
+	mu         sync.Mutex
+	conns      map[int]*pconn
+	accepts    int
+	refuse     bool
+	failNext   int
+	faults     []*Fault
+	frames     []FrameInfo
+	protoErrs  []string
+	dataN      [2]int
+	hold       func(fi FrameInfo) <-chan struct{}
+	observe    func(fi FrameInfo, payload []byte)
+	throttle   [2]int // bytes per second, 0 = off
+	rawCut     *RawFault
+	rawBytes   [2]int64
+	closed     bool
 	KeepFrames bool
 	MaxKeep    int
 }
@@ -139,8 +139,8 @@ func New(target string) *Proxy {
 	return p
 }
 
-func (p *Proxy) Addr() string   { return p.ln.Addr().String() }
-func (p *Proxy) WSURL() string  { return "ws://" + p.Addr() }
+func (p *Proxy) Addr() string    { return p.ln.Addr().String() }
+func (p *Proxy) WSURL() string   { return "ws://" + p.Addr() }
 func (p *Proxy) HTTPURL() string { return "http://" + p.Addr() }
 
 func (p *Proxy) Accepts() int {
